@@ -2,7 +2,7 @@
 # confirm_seed.sh <ID> [<name>] — confirm a seeded change produced in the scratch worktree /tmp/mut/<ID>:
 #   with the patch: crate builds, the existing suite passes, the demonstration fails;
 #   without it: the demonstration passes.  On success copies it to /verif/seeded/<name>/.
-ID=$1; NAME=${2:-$ID}; W=/tmp/mut/$ID; O=/tmp/mut/${ID}_out
+ID=$1; NAME=${2:-$ID}; M=${MUT:-/tmp/mut}; W=$M/$ID; O=$M/${ID}_out
 export CARGO_NET_OFFLINE=true
 cd $W || exit 2
 git checkout -q -- . ; git apply $O/patch.diff || { echo "patch does not apply"; exit 2; }
